@@ -489,6 +489,33 @@ def run_mut(u, ctx):
                     if not isinstance(val, GematoException):
                         ctx.violation('verify-raises:' + adapt.exc_key(val),
                                       'non-library exception %r' % (val,), case)
+        # ... and bytes added behind what GnuPG hashes of a line (it covers 19993
+        # bytes and takes the blanks before that for trailing white space): the signed
+        # text has changed by more than trailing white space, gpg still says GOOD
+        body = [i for i in range(sep + 1, sigb) if lines[i] and not
+                lines[i].startswith('-')]
+        for total in (20000, 24576, 65537):
+            for tail in ('x', 'DATA evil.sh 0', 'IGNORE evil-dir',
+                         'DIST evil.tar 1 MD5 ' + 'ab' * 16):
+                if not body:
+                    break
+                i = body[(total + len(tail)) % len(body)]
+                l2 = list(lines)
+                l2[i] = lines[i] + ' ' * max(1, total - len(lines[i].encode('utf8'))) \
+                    + tail
+                t2 = '\n'.join(l2)
+                case = {'kind': 'muttext', 'text': t2, 'pos': -1, 'rep': 'long-line'}
+                ctx.case(sig=('mut-long', total, tail[:4]), case=case, klass='mut')
+                ctx.count('mut:long_line_cases')
+                kind, val, m = verify_with_env(env, t2)
+                if kind == 'ok':
+                    ctx.violation('mutated-signed-text-accepted:beyond-gpg-line-limit',
+                                  '%r appended behind %d bytes of padding on a signed '
+                                  'line and the signature was still accepted'
+                                  % (tail, total), case)
+                elif not isinstance(val, GematoException):
+                    ctx.violation('verify-raises:' + adapt.exc_key(val),
+                                  'non-library exception %r' % (val,), case)
         ctx.sample({'kind': 'mut', 'len': end - start, 'positions': len(positions)},
                    'mut')
 
